@@ -117,6 +117,15 @@ def _run_one(prop, tier, name, seed):
     return out
 
 
+def _selfcheck_task(seed):
+    sys.path.insert(0, ROOT)
+    from vsym import selfcheck
+    try:
+        return {'ok': True, 'counts': selfcheck.run(seed)}
+    except BaseException as e:
+        return {'ok': False, 'error': '%s: %s' % (type(e).__name__, e)}
+
+
 def run_replays(specs, timeout=120):
     """replay specs against the unmodified /repo build in a plain interpreter; returns list of result dicts"""
     if not specs:
@@ -160,6 +169,7 @@ def check(prop, tier, seed=0, only=None, jobs=None):
     results = []
     ctx = mp.get_context('spawn')
     with cf.ProcessPoolExecutor(max_workers=jobs, mp_context=ctx) as pool:
+        selff = pool.submit(_selfcheck_task, seed)
         futs = {pool.submit(_run_one, prop, tier, n, seed): n for n in names}
         budget = {o.name: o.budget_s for o in obs}
         for f in cf.as_completed(futs):
@@ -170,6 +180,10 @@ def check(prop, tier, seed=0, only=None, jobs=None):
                 results.append({'name': n, 'verdict': 'crash', 'reason': 'worker died: %s' % e, 'paths': 0, 'paths_ok': 0,
                                 'queries': 0, 'solver_s': 0, 'unknowns': 0, 'requires': 0, 'violations': [], 'oks': [],
                                 'functions': [], 'wall_s': 0})
+        try:
+            selfres = selff.result()
+        except Exception as e:
+            selfres = {'ok': False, 'error': 'selfcheck worker died: %s' % e}
     order = {n: i for i, n in enumerate(names)}
     results.sort(key=lambda r: order[r['name']])
 
@@ -269,6 +283,9 @@ def check(prop, tier, seed=0, only=None, jobs=None):
                 r['verdict'] = 'inconclusive'
                 r['reason'] = 'known finding reproduced; %d further witnesses did not reproduce' % unconfirmed
 
+    if not selfres.get('ok'):
+        lines.append('HARNESS-ERROR property=%s model self-validation failed: %s' % (prop, selfres.get('error')))
+        exit_code = exit_code or 2
     crashed = [r for r in results if r['verdict'] == 'crash']
     for r in results:
         if r['verdict'] == 'inconclusive':
@@ -278,7 +295,7 @@ def check(prop, tier, seed=0, only=None, jobs=None):
     if crashed and exit_code == 0:
         exit_code = 2
 
-    write_evidence(prop, tier, seed, results, validated, n_viol, time.time() - t0, mod)
+    write_evidence(prop, tier, seed, results, validated, n_viol, time.time() - t0, mod, selfres)
     for ln in lines:
         print(ln)
     nh = sum(1 for r in results if r['verdict'] in ('holds', 'holds-except-known'))
@@ -296,7 +313,7 @@ def check(prop, tier, seed=0, only=None, jobs=None):
     return exit_code
 
 
-def write_evidence(prop, tier, seed, results, validated, n_viol, wall, mod):
+def write_evidence(prop, tier, seed, results, validated, n_viol, wall, mod, selfres=None):
     os.makedirs(os.path.join(ROOT, 'evidence'), exist_ok=True)
     nh = sum(1 for r in results if r['verdict'] in ('holds', 'holds-except-known'))
     samples = []
@@ -336,6 +353,7 @@ def write_evidence(prop, tier, seed, results, validated, n_viol, wall, mod):
                                 'wall_s': r.get('wall_s'), 'bounds': r.get('bounds'), 'outside_bounds': r.get('outside'),
                                 'violations': len(r.get('violations', []))} for r in results],
             'solver': 'z3 %s (python API, incremental, model-guided branching)' % _z3_version(),
+            'model_self_validation': selfres,
             'trusted_base': ['CPython 3.12', 'z3', 'vsym.core path bookkeeping', 'vsym.models shadows', 'vsym.rope abstraction'],
         },
         'assumptions': sorted({s for r in results for s in r.get('stubs', [])} | set(getattr(mod, 'ASSUMPTIONS', []))),
